@@ -220,7 +220,7 @@ struct PoolImage {
 fn gen_image(src: &mut Src, prev: Option<&PoolImage>) -> PoolImage {
     let h = 6 + src.draw(35) as usize;
     let w = 1 + src.draw(40) as usize;
-    let kind = src.draw(9);
+    let kind = src.draw(10);
     let palette: Vec<RGBA> = (0..1 + src.draw(6)).map(|i| RGBA::new((i * 50 + src.draw(40)) as u8, (200 - i * 30) as u8, src.draw(256) as u8, 255)).collect();
     let transparent = src.chance(1, 4);
     // partly transparent pixels: alphas next to the ends and the middle of the range, on
@@ -349,6 +349,33 @@ fn gen_image(src: &mut Src, prev: Option<&PoolImage>) -> PoolImage {
                 }
             }
         }
+        9 => match prev {
+            // the picture before it with other alphas (a picture fading out, an icon whose shape
+            // lives in its alpha mask): same shape, same red, green and blue in every pixel
+            Some(prev) if prev.class == "few-colours" || prev.class == "same-colours-other-alpha" => {
+                let size = prev.image.size();
+                let data: Vec<RGBA> = prev
+                    .image
+                    .iter()
+                    .enumerate()
+                    .map(|(i, px)| {
+                        let [red, green, blue, alpha] = px.to_rgba();
+                        let alpha = match (i + alpha_shift) % 3 {
+                            0 => 0,
+                            1 => alpha,
+                            _ if alpha == 255 => 128,
+                            _ => 255,
+                        };
+                        RGBA::new(red, green, blue, alpha)
+                    })
+                    .collect();
+                PoolImage { image: Image::from_parts(data.into(), Shape::from(size)), class: "same-colours-other-alpha", few_colours: true }
+            }
+            _ => {
+                let data: Vec<RGBA> = (0..h * w).map(|i| few(i / w, i % w)).collect();
+                PoolImage { image: Image::from_parts(data.into(), Shape::from(Size::new(h, w))), class: "few-colours", few_colours: true }
+            }
+        },
         _ => match prev {
             Some(prev) => {
                 let size = prev.image.size();
